@@ -14,6 +14,7 @@ import (
 	"mellium.im/xmpp/stanza"
 	"mellium.im/xmpp/stream"
 	"verif.sim/simrt"
+	"verif.sim/simrt/simnet"
 )
 
 // C10 — closing is idempotent, final and observable.
@@ -77,8 +78,124 @@ func doTx(ctx context.Context, s *xmpp.Session, kind, marker string) error {
 	panic("unknown tx kind " + kind)
 }
 
+// runC10WriteFault: the connection write that carries the closing tag fails. Some of the tag's bytes went out (or all of
+// them, with the error reported afterwards): the stream is closed for good as far as this side can tell, whatever the
+// error - nothing more may follow the (partial) tag, every later Close is a no-op on the wire and every later transmit
+// call is refused. When the failing write took no byte at all only the invariants that hold under every reading are
+// demanded: at most one complete closing tag, nothing after it.
+func runC10WriteFault(rc *RC) {
+	ch := rc.Ch
+	opts := E2Opts{S2S: ch.Chance("workload", 1, 5), Plain: ch.Chance("workload", 1, 4)}
+	if !opts.S2S && ch.Chance("workload", 1, 4) {
+		opts.WS = true
+	}
+	strat := rc.S.ConfigureStrategy()
+	e := rc.NewE2(opts)
+	if e == nil {
+		return
+	}
+	closeStart := strings.TrimSuffix(e.CloseTag(), "/>")
+	closeStart = strings.TrimSuffix(closeStart, ">")
+	partial := []int{0, 1, 2, len(closeStart), len(e.CloseTag()) - 1, 1 << 30}[ch.Int("faults", 6)]
+	once := ch.Chance("faults", 1, 2)
+	closeFrom := ch.Int("workload", 3) // who asks first: 0 the application, 1 Serve's own shutdown (peer closes), 2 a handler error
+	nBefore, nAfter := ch.Range("workload", 0, 2), ch.Range("workload", 1, 4)
+	rc.Describe("close-write-fault strategy=%s ws=%v s2s=%v plain=%v partial=%d once=%v closeFrom=%d before=%d after=%d", strat, opts.WS, opts.S2S, opts.Plain, partial, once, closeFrom, nBefore, nAfter)
+	rc.CaseKey = fmt.Sprint("cwf", opts, partial, once, closeFrom)
+	e.Serve(xmpp.HandlerFunc(func(t xmlstream.TokenReadEncoder, start *xml.StartElement) error {
+		if (Elem{Start: *start}).Attr("id") == "boom" {
+			return errBoom
+		}
+		return nil
+	}))
+	var calls []*txCall
+	var closeErrs []error
+	armedAt, afterFirstClose := -1, -1
+	mk := 0
+	tx := func() {
+		mk++
+		c := &txCall{kind: txKinds[ch.Int("workload", len(txKinds))], marker: fmt.Sprintf("mk%dx", mk), inv: rc.S.Steps}
+		calls = append(calls, c)
+		ctx, cancel := context.WithTimeout(e.Ctx, 5*time.Second)
+		c.err = doTx(ctx, e.Sess, c.kind, c.marker)
+		c.ret, c.done = rc.S.Steps, true
+		simrt.Settle(cancel, "h:cancel")
+	}
+	app := rc.Spawn("app", func() {
+		for i := 0; i < nBefore; i++ {
+			tx()
+		}
+		// everything sent so far is on the wire; the next connection write is the one that carries the closing tag
+		armedAt = len(e.SUT.Out().Tap)
+		e.SUT.WriteErrAt, e.SUT.WriteErr, e.SUT.WritePartial, e.SUT.WriteErrOnce = e.SUT.Writes+1, simnet.ErrInjected, partial, once
+		rc.Fire("writeerr")
+		switch closeFrom {
+		case 0:
+			closeErrs = append(closeErrs, e.Sess.Close())
+		case 1:
+			e.PeerWrite(e.CloseTag())
+			simrt.WaitUntil("app:serve-done", func() bool { return e.ServeDone })
+		case 2:
+			e.PeerWrite(`<message id="boom"/>`)
+			simrt.WaitUntil("app:serve-done", func() bool { return e.ServeDone })
+		}
+		afterFirstClose = len(calls)
+		for i := 0; i < nAfter; i++ {
+			if ch.Chance("workload", 1, 3) {
+				closeErrs = append(closeErrs, e.Sess.Close())
+			} else {
+				tx()
+			}
+		}
+		closeErrs = append(closeErrs, e.Sess.Close())
+		if closeFrom == 0 {
+			e.PeerWrite(e.CloseTag())
+		}
+	})
+	st := rc.S.Run(func() bool { return app.Done() && e.ServeDone }, 30000, 5*time.Minute)
+	if st == simrt.MaxSteps {
+		rc.Infraf("C10: step bound hit")
+	}
+	tap := e.SUT.Out().Tap
+	if armedAt >= 0 && app.Done() {
+		rest := tap[min(armedAt, len(tap)):]
+		tag := e.CloseTag()
+		rc.Evals["C10.c1"]++
+		rc.Check("C10.c1", "multiple-close-tags:write-fault", bytes.Count(rest, []byte(tag)) <= 1, "%d complete closing tags on the wire after the closing write failed: %q", bytes.Count(rest, []byte(tag)), tail(tap, 200))
+		if i := bytes.Index(rest, []byte(tag)); i >= 0 {
+			rc.Evals["C10.c2"]++
+			rc.Check("C10.c2", "bytes-after-close:write-fault", len(bytes.TrimSpace(rest[i+len(tag):])) == 0, "bytes after the closing tag: %q", clip(string(rest[i+len(tag):]), 200))
+		}
+		if partial > 0 {
+			// part of the tag is out: that was the end of this stream
+			want := tag[:min(partial, len(tag))]
+			rc.Evals["C10.c2"]++
+			if string(rest) != want {
+				rc.Failf("C10.c2", "bytes-after-failed-close-write", "the write of the closing tag failed after %d of its bytes; the connection then carried %q (everything after %q is past the end of the stream)", min(partial, len(tag)), clip(string(rest), 240), want)
+			}
+			for _, c := range calls[max(afterFirstClose, 0):] {
+				rc.Evals["C10.c3"]++
+				if c.done && !errors.Is(c.err, xmpp.ErrOutputStreamClosed) {
+					rc.Failf("C10.c3", "tx-after-failed-close-not-refused:"+c.kind, "%s(%s) started after a close whose write had failed mid-tag returned %v instead of ErrOutputStreamClosed", c.kind, c.marker, c.err)
+				}
+			}
+		}
+	}
+	rc.Evals["C10.c4"]++
+	if !e.ServeDone {
+		rc.Failf("C10.c4", "serve-not-returned:write-fault", "the peer closed its stream but Serve has not returned (status %v, stuck %v)", st, rc.S.Stuck())
+	}
+	stuck := rc.Teardown()
+	rc.CheckPanics("C10.c6")
+	rc.Check("C10.c6", "stuck-after-teardown", len(stuck) == 0, "tasks still blocked after teardown: %v", stuck)
+}
+
 func runC10(rc *RC) {
 	ch := rc.Ch
+	if ch.Chance("workload", 1, 6) {
+		runC10WriteFault(rc)
+		return
+	}
 	opts := E2Opts{S2S: ch.Chance("workload", 1, 5), Plain: ch.Chance("workload", 1, 4), Chunk: ch.Chance("workload", 1, 2)}
 	if !opts.S2S && ch.Chance("workload", 1, 4) {
 		opts.WS = true
